@@ -307,8 +307,8 @@ def build(tier):
                  "select -> ValueError)", "events": conn_events(), "write_may_fail": "symbolic"},
                 goals=conn_events() + ["written", "dropped"],
                 doc="SyncTransport.send through the threaded TCP link || loss / disconnect"),
-        Harness("pump-lifecycle", pump_lifecycle(b - 1, ["mqtt"] if q else ["mqtt", "serial"]),
-                {"mode": "reexec", "preemption_budget": b - 1, "threads": "controller (start, stop, "
+        Harness("pump-lifecycle", pump_lifecycle(1, ["mqtt"] if q else ["mqtt", "serial"]),
+                {"mode": "reexec", "preemption_budget": 1, "threads": "controller (start, stop, "
                  "optionally start + 2 commands + stop), 2 producers (2 + 1 commands), the real "
                  "_poll_queue pump(s) and connect thread(s)", "idle_polling": "abstracted to a "
                  "wait for 'queue not empty or stop requested'",
